@@ -27,7 +27,7 @@ from pathlib import Path
 
 import common
 from common import coq_str, coq_list, coq_opt, coq_bool, coq_Z, coq_eval_shards
-from props.c09_7z import write_7z
+from props.c09_7z import write_7z, PROP_IDS
 
 AX = "sharepoint2text/parsing/extractors/archive_extractor.py"
 SZ = "sharepoint2text/parsing/extractors/util/sevenzip.py"
@@ -334,6 +334,26 @@ def make_cases(ctx, W):
         meta[i] = {"kind": kind, "members": members, "actions": actions, "label": label, "limits": limits, "layout": layout}
         return i
 
+    def add_built(kind, builder, actions, label, limits=None, extra=None):
+        """builder(Wk, tok) -> (archive bytes, members); used for hand-crafted containers"""
+        cid[0] += 1
+        i = cid[0]
+        Wk = os.path.join(W, f"w{len(cases) % N_WORKERS}")
+        try:
+            data, members = builder(Wk, lambda j: f"TOK{ctx.seed}x{i}x{j}Q")
+        except Exception as e:  # noqa
+            ctx.count("unbuildable:" + kind + ":" + label.split(":")[0])
+            return None
+        c = {"id": i, "kind": kind, "actions": actions, "path": "A." + kind, "count_entries": False, "hex": data.hex()}
+        if limits:
+            c["limits"] = limits
+        cases.append(c)
+        meta[i] = {"kind": kind, "members": members, "actions": actions, "label": label, "limits": limits,
+                   "layout": "solid" if kind == "7z" else None}
+        if extra:
+            meta[i].update(extra)
+        return i
+
     def member(cls, name, idx, **kw):
         tok = f"TOK{ctx.seed}x{cid[0]}x{idx}Q"
         m = {"cls": cls, "name": name, "token": tok, "data": f"{tok} body of {cls}".encode()}
@@ -424,6 +444,203 @@ def make_cases(ctx, W):
               member("tar-fifo", "ff.txt", 5, tartype="fifo"), member("tar-chr", "dev.txt", 6, tartype="chr"),
               member("plain", "after.txt", 7)]
         add(kind, ms, ["exhaust"], limits=[3000, real_entry], label="tar-links-oversize")
+    # 5d. names that reach the code through container features rather than the plain header name
+    HOST = lambda Wk: [("abs-canary", os.path.join(Wk, "canary", "secret.txt")), ("dotdot-canary", "../../canary/secret.txt"),
+                       ("hidden", ".hidden.txt"), ("macosx", "__MACOSX/x.txt"), ("nested", "n.gz"), ("unsupported", "x.exe"),
+                       ("mix-bs", "..\\../canary/secret.txt"), ("plain", "renamed.md")]
+
+    def payload(cls, nm, tok):
+        return nested_payload(nm, tok) if cls == "nested" else f"{tok} body of {cls}".encode()
+
+    def effective(kind, data, members):
+        """names as the standard library reports them (oracle), aligned by order"""
+        if kind == "zip":
+            names = [i.filename for i in zipfile.ZipFile(io.BytesIO(data)).infolist()]
+        else:
+            with tarfile.open(fileobj=io.BytesIO(data)) as tf:
+                names = [x.name for x in tf.getmembers()]
+                sizes = [x.size for x in tf.getmembers()]
+            for mm, sz in zip(members, sizes):
+                mm["declared"] = sz
+        for mm, nme in zip(members, names):
+            mm["eff"] = nme
+        return data, members
+
+    def tar_build(fmt, specs, global_pax=None):
+        b = io.BytesIO()
+        with tarfile.open(fileobj=b, mode="w", format=fmt, pax_headers=global_pax) as tfw:
+            for sp in specs:
+                ti = tarfile.TarInfo(sp["ustar"])
+                if sp.get("pax"):
+                    ti.pax_headers = dict(sp["pax"])
+                if sp.get("type") is not None:
+                    ti.type, ti.linkname = sp["type"], sp.get("link", "")
+                    tfw.addfile(ti)
+                else:
+                    ti.size = len(sp["raw"])
+                    tfw.addfile(ti, io.BytesIO(sp["raw"]))
+        return b.getvalue()
+
+    n_host = len(HOST("/x"))
+    for hidx in range(n_host):
+        # tar: pax `path=` carries the hostile name, the ustar header a benign one
+        def b_pax(Wk, tok, hidx=hidx):
+            cls, nm = HOST(Wk)[hidx]
+            ms = [{"cls": "plain", "name": "ok.txt", "token": tok(0), "data": payload("plain", "ok.txt", tok(0))},
+                  {"cls": "pax-path-" + cls, "name": "benign.txt", "token": tok(1), "data": payload(cls, nm, tok(1))}]
+            data = tar_build(tarfile.PAX_FORMAT, [{"ustar": "ok.txt", "raw": ms[0]["data"]},
+                                                  {"ustar": "benign.txt", "raw": ms[1]["data"], "pax": {"path": nm}}])
+            return effective("tar", data, ms)
+        add_built("tar", b_pax, ["exhaust"], "pax-path:" + HOST("/x")[hidx][0])
+
+        # tar: GNU sparse 1.0 member whose real name comes from GNU.sparse.name
+        def b_sparse(Wk, tok, hidx=hidx):
+            cls, nm = HOST(Wk)[hidx]
+            real = payload(cls, nm, tok(1))
+            mp = b"1\n0\n%d\n" % len(real)
+            raw = mp + b"\0" * (512 - len(mp)) + real
+            ms = [{"cls": "plain", "name": "ok.txt", "token": tok(0), "data": payload("plain", "ok.txt", tok(0))},
+                  {"cls": "sparse-name-" + cls, "name": "GNUSparseFile.0/s.txt", "token": tok(1), "data": real}]
+            data = tar_build(tarfile.PAX_FORMAT, [
+                {"ustar": "ok.txt", "raw": ms[0]["data"]},
+                {"ustar": "GNUSparseFile.0/s.txt", "raw": raw,
+                 "pax": {"GNU.sparse.major": "1", "GNU.sparse.minor": "0", "GNU.sparse.name": nm,
+                         "GNU.sparse.realsize": str(len(real))}}])
+            return effective("tar", data, ms)
+        add_built("tar.gz" if hidx % 2 else "tar", b_sparse, ["exhaust"], "sparse-name:" + HOST("/x")[hidx][0])
+
+        # zip: Info-ZIP Unicode Path extra field (0x7075) carries the hostile name
+        def b_upath(Wk, tok, hidx=hidx):
+            import struct as _st, zlib as _zl
+            cls, nm = HOST(Wk)[hidx]
+            ms = [{"cls": "plain", "name": "ok.txt", "token": tok(0), "data": payload("plain", "ok.txt", tok(0))},
+                  {"cls": "upath-" + cls, "name": "plainname.txt", "token": tok(1), "data": payload(cls, nm, tok(1))}]
+            b = io.BytesIO()
+            with zipfile.ZipFile(b, "w", zipfile.ZIP_DEFLATED) as z:
+                z.writestr("ok.txt", ms[0]["data"])
+                zi = zipfile.ZipInfo("plainname.txt")
+                u = nm.encode("utf-8")
+                zi.extra = _st.pack("<HHBI", 0x7075, 5 + len(u), 1, _zl.crc32(b"plainname.txt")) + u
+                z.writestr(zi, ms[1]["data"])
+            return effective("zip", b.getvalue(), ms)
+        add_built("zip", b_upath, ["exhaust"], "zip-unicode-path:" + HOST("/x")[hidx][0])
+
+        # zip: local header name and central directory name differ (same length), either side hostile
+        for side in ("local", "central"):
+            def b_mis(Wk, tok, hidx=hidx, side=side):
+                cls, nm = HOST(Wk)[hidx]
+                hostile = nm.encode("utf-8")
+                benign = (b"b" * max(1, len(hostile) - 4) + b".txt")[:len(hostile)] if len(hostile) > 4 else b"b" * len(hostile)
+                ms = [{"cls": "plain", "name": "ok.txt", "token": tok(0), "data": payload("plain", "ok.txt", tok(0))},
+                      {"cls": f"zip-{side}-name-" + cls, "name": benign.decode(), "token": tok(1),
+                       "data": payload(cls, nm, tok(1))}]
+                b = io.BytesIO()
+                with zipfile.ZipFile(b, "w", zipfile.ZIP_STORED) as z:
+                    z.writestr("ok.txt", ms[0]["data"])
+                    z.writestr(benign.decode(), ms[1]["data"])
+                raw = bytearray(b.getvalue())
+                first = raw.find(benign)
+                last = raw.rfind(benign)
+                pos = first if side == "local" else last
+                raw[pos:pos + len(benign)] = hostile
+                return effective("zip", bytes(raw), ms)
+            add_built("zip", b_mis, ["exhaust"], f"zip-{side}-name-differs:" + HOST("/x")[hidx][0])
+
+    # tar: pax linkpath override / GNU long names and long links / sparse members that are oversize / global pax path
+    def b_links(Wk, tok):
+        can_ = os.path.join(Wk, "canary", "secret.txt")
+        ms = [{"cls": "plain", "name": "ok.txt", "token": tok(0), "data": payload("plain", "ok.txt", tok(0))},
+              {"cls": "pax-linkpath-sym", "name": "ls.txt", "token": tok(1), "data": None, "tartype": "sym"},
+              {"cls": "pax-linkpath-hard", "name": "lh.txt", "token": tok(2), "data": None, "tartype": "hard"},
+              {"cls": "plain", "name": "after.md", "token": tok(3), "data": payload("plain", "after.md", tok(3))}]
+        data = tar_build(tarfile.PAX_FORMAT, [
+            {"ustar": "ok.txt", "raw": ms[0]["data"]},
+            {"ustar": "ls.txt", "type": tarfile.SYMTYPE, "link": "harmless", "pax": {"linkpath": can_}},
+            {"ustar": "lh.txt", "type": tarfile.LNKTYPE, "link": "ok.txt", "pax": {"linkpath": "../../canary/secret.txt"}},
+            {"ustar": "after.md", "raw": ms[3]["data"]}])
+        return effective("tar", data, ms)
+    add_built("tar", b_links, ["exhaust"], "pax-linkpath")
+
+    def b_gnulong(Wk, tok):
+        can_ = os.path.join(Wk, "canary", "secret.txt")
+        n1 = "../" * 60 + can_.lstrip("/")
+        n2 = "d/" * 70 + ".hid.txt"
+        n3 = "e/" * 70 + "vis.txt"
+        ms = [{"cls": "gnu-long-dotdot", "name": n1, "token": tok(0), "data": payload("x", n1, tok(0))},
+              {"cls": "gnu-long-hidden", "name": n2, "token": tok(1), "data": payload("x", n2, tok(1))},
+              {"cls": "plain", "name": n3, "token": tok(2), "data": payload("x", n3, tok(2))},
+              {"cls": "gnu-long-link", "name": "l.txt", "token": tok(3), "data": None, "tartype": "sym"}]
+        data = tar_build(tarfile.GNU_FORMAT, [{"ustar": n1, "raw": ms[0]["data"]}, {"ustar": n2, "raw": ms[1]["data"]},
+                                              {"ustar": n3, "raw": ms[2]["data"]},
+                                              {"ustar": "l.txt", "type": tarfile.SYMTYPE, "link": "/" + "x/" * 80 + can_.lstrip("/")}])
+        return effective("tar", data, ms)
+    add_built("tar", b_gnulong, ["exhaust"], "gnu-longname")
+    add_built("tar.gz", b_gnulong, ["exhaust"], "gnu-longname")
+
+    def b_sparse_big(Wk, tok, realsize=3001, v01=False):
+        real = payload("x", "s.txt", tok(1))
+        if v01:
+            raw, pax = real, {"GNU.sparse.map": "0,%d" % len(real), "GNU.sparse.size": str(realsize), "GNU.sparse.name": "sp01.txt"}
+        else:
+            mp = b"1\n0\n%d\n" % len(real)
+            raw = mp + b"\0" * (512 - len(mp)) + real
+            pax = {"GNU.sparse.major": "1", "GNU.sparse.minor": "0", "GNU.sparse.name": "sp10.txt", "GNU.sparse.realsize": str(realsize)}
+        ms = [{"cls": "plain", "name": "ok.txt", "token": tok(0), "data": payload("plain", "ok.txt", tok(0))},
+              {"cls": "sparse-oversize", "name": "GNUSparseFile.0/s.txt", "token": tok(1), "data": real}]
+        data = tar_build(tarfile.PAX_FORMAT, [{"ustar": "ok.txt", "raw": ms[0]["data"]},
+                                              {"ustar": "GNUSparseFile.0/s.txt", "raw": raw, "pax": pax}])
+        return effective("tar", data, ms)
+    add_built("tar", b_sparse_big, ["exhaust"], "sparse-oversize", limits=[3000, real_entry])
+    add_built("tar", lambda Wk, tok: b_sparse_big(Wk, tok, 3001, True), ["exhaust"], "sparse-oversize", limits=[3000, real_entry])
+    add_built("tar", lambda Wk, tok: b_sparse_big(Wk, tok, 48 * MiB), ["exhaust"], "sparse-oversize")
+    add_built("tar", lambda Wk, tok: b_sparse_big(Wk, tok, 3000), ["exhaust"], "sparse-at-limit", limits=[3000, real_entry])
+
+    def b_globalpax(Wk, tok):
+        can_ = os.path.join(Wk, "canary", "secret.txt")
+        ms = [{"cls": "global-pax-path", "name": "g1.txt", "token": tok(0), "data": payload("x", "g1.txt", tok(0))},
+              {"cls": "global-pax-path", "name": "g2.txt", "token": tok(1), "data": payload("x", "g2.txt", tok(1))}]
+        data = tar_build(tarfile.PAX_FORMAT, [{"ustar": "g1.txt", "raw": ms[0]["data"]}, {"ustar": "g2.txt", "raw": ms[1]["data"]}],
+                         global_pax={"path": can_})
+        return effective("tar", data, ms)
+    add_built("tar", b_globalpax, ["exhaust"], "global-pax-path")
+
+    # 5e. 7z FilesInfo property sequences: EmptyStream / EmptyFile / Anti / Dummy / time stamps / unknown ids /
+    #     repeated and reordered records / external names — tied to the model's parse_files_info
+    some_names = [n for _, n in grammar if "\ud800" not in n]
+    for r in range(ctx.n(60, 400)):
+        def b_props(Wk, tok, r=r):
+            n = rng.randint(1, 4)
+            def bits():
+                return [rng.random() < 0.4 for _ in range(n)]
+            def nm():
+                x = rng.choice(some_names)
+                return (x.replace("../" + PH.lstrip("/"), "../" + Wk.lstrip("/")).replace(PH, Wk)
+                        .replace(PH.lstrip("/"), Wk.lstrip("/")))
+            props = [("names", [nm() for _ in range(n)], 1 if rng.random() < 0.05 else 0)]
+            for _ in range(rng.choice([0, 1, 1, 1, 2])):
+                props.append(("empty_stream", bits()))
+            for _ in range(rng.choice([0, 0, 1, 2])):
+                d = bits()
+                props.append(("attrs", d, [rng.choice([0x10, 0x20, 0x30, 0x8010, 0x2000, 0]) for x in d if x]))
+            for _ in range(rng.randint(0, 4)):
+                props.append(rng.choice([("empty_file", bits()), ("anti", bits()), ("dummy", rng.randint(0, 5)), ("mtime", None),
+                                         ("ctime", None), ("startpos", None), ("raw", rng.choice([0x30, 0x1A, 0x16]), b"junk")]))
+            rng.shuffle(props)
+            final_empty = [False] * n
+            for pr in props:
+                if pr[0] == "empty_stream":
+                    final_empty = pr[1]
+            k = sum(1 for e in final_empty if not e) + rng.choice([0, 0, 0, -1, 1])
+            streams = [f"{tok(j)} stream {j}".encode() for j in range(max(0, k))]
+            data = write_7z(None, props=props, n_files=n, streams=streams)
+            return data, [{"cls": "props", "name": "<props>", "token": tok(0), "data": None, "lie": True}], (n, props)
+        cid[0] += 1
+        i = cid[0]
+        Wk = os.path.join(W, f"w{len(cases) % N_WORKERS}")
+        data, members, pinfo = b_props(Wk, lambda j, i=i: f"TOK{ctx.seed}x{i}x{j}Q")
+        cases.append({"id": i, "kind": "7z", "actions": ["exhaust"], "path": "A.7z", "count_entries": False, "hex": data.hex()})
+        meta[i] = {"kind": "7z", "members": members, "actions": ["exhaust"], "label": "filesinfo-props", "limits": None,
+                   "layout": "solid", "props": pinfo}
     # 6. consumer behaviours on multi-member archives (7z: with a pre-run that records the oracle `yields`)
     n_hist = ctx.n(2, 6)
     for r in range(n_hist):
@@ -603,8 +820,10 @@ def judge(ctx, c, m, res, token, roots, router_info):
     #  hands every folder the first pack stream — so content attribution is judged on single-folder archives)
     attributable = not any(x.get("lie") for x in m["members"]) and m.get("layout") in (None, "solid")
     for mm in (m["members"] if attributable else []):
-        nm = mm["name"]
+        nm = mm.get("eff", mm["name"])           # the name the container library reports (pax / unicode-path overrides)
         bn = os.path.basename(nm)
+        declared = mm.get("declared", len(mm["data"]) if mm.get("data") is not None else 0)
+        limit = min(m["limits"]) if m["limits"] else min(res["max_mem"], res["max_entry"])
         if mm.get("data") is None or mm.get("tartype") or mm.get("lie"):
             rule = "non-regular" if not mm.get("lie") else None
         elif bn.startswith("."):
@@ -619,7 +838,7 @@ def judge(ctx, c, m, res, token, roots, router_info):
                 rule = "nested-archive-by-router"
             elif mm.get("attr") is not None and mm["attr"] & 0x10:
                 rule = None
-            elif m["limits"] and len(mm["data"]) > min(m["limits"]):      # exact: size > limit
+            elif declared > limit:                                          # exact: size > limit
                 rule = "oversize"
                 if m["label"] == "boundary":
                     rule = "oversize-boundary"
@@ -655,6 +874,15 @@ def run(ctx):
         "generator life cycle of read_archive on 7z",
         "monitor: sys.addaudithook in a worker process (CPython raises the events), harness 7z writer, zipfile/tarfile writers",
         "CPython finalises a dropped generator promptly (refcount) — exercised, not proved",
+        "tarfile / zipfile header decoding (pax path/linkpath/size overrides, GNU long names and links, GNU sparse maps 0.1/1.0, "
+        "Info-ZIP Unicode Path 0x7075, local-vs-central name check) is a stdlib oracle: the harness records the names and sizes "
+        "the library reports and judges the skip rules on those; only confinement and the skip/size rules are checked there",
+        "7z FilesInfo: the byte-level decoding of bit vectors / UTF-16 names / uint32 attributes is exercised through the "
+        "harness writer (model input = semantic property list, implementation input = its encoding); real 7-Zip writes an "
+        "'external' byte before the attribute values which this reader does not consume (attribute values of real archives "
+        "are shifted) — not confinement-relevant, outside C09",
+        "sampled, not exhaustive: 60 (quick) / 400 (thorough) random FilesInfo property sequences of 1-4 entries; 8 hostile "
+        "names x {pax path, GNU.sparse.name, zip unicode path, zip local/central mismatch}",
     ]
     ctx.assumptions += ["POSIX os.path; tempfile.TemporaryDirectory returns a fresh absolute normalised directory and removes it "
                         "on __exit__; no symlinks pre-exist inside the fresh directory"]
@@ -664,7 +892,8 @@ def run(ctx):
     ctx.prove("C09/Props.v", ["C09/Proofs.vo"], expected=[
         "C09_safe_join_confined", "C09_safe_join_below_plain", "C09_7z_events_confined", "C09_reads_subset_writes",
         "C09_reads_subset_writes_refuted_orig", "C09_skips", "C09_tempdir_balance", "C09_tempdir_gone",
-        "C09_tempdir_gone_when_done", "C09_zip_tar_no_fs", "C09_7z_paths_from_safe_join"])
+        "C09_tempdir_gone_when_done", "C09_zip_tar_no_fs", "C09_7z_paths_from_safe_join",
+        "C09_ignored_props_inert", "C09_streamless_entries_inert", "C09_streamless_no_write_outside"])
     ctx.prove("C09/Inst.v", ["Gen/C09Tables.vo", "Gen/C09Skel.vo", "C09/Corr.vo", "C09/Proofs.vo"], expected=[
         "C09_limits_wf", "C09_routed_archive_exts_skipped", "C09_archive_registered", "C09_skel_zip_tar_no_fs",
         "C09_skel_zip_tar_reads_in_memory", "C09_skel_7z_paths_from_safe_join", "C09_skips_refuted_orig"])
@@ -720,6 +949,7 @@ def run(ctx):
     path_cases, sj_cases, skip_cases, z7_cases, fl_cases, life_cases = [], [], [], [], [], []
     z7_info, life_info, skip_info = [], [], []
     size_cases, size_info = [], []
+    fi_cases, fi_info = [], []
     herr = []
     pre_prog = {}
     for c in cases:
@@ -769,6 +999,25 @@ def run(ctx):
         if m["kind"] != "7z":
             continue
         fls = [t[1] for t in r["trace"] if t[0] == "filelist"]
+        if m.get("props"):
+            n, props = m["props"]
+
+            def coq_prop(pr):
+                if pr[0] == "empty_stream":
+                    return "PEmptyStream " + coq_list([coq_bool(x) for x in pr[1]])
+                if pr[0] == "names":
+                    return f"PNames {coq_bool(pr[2] != 0)} " + coq_list([coq_str(x) for x in pr[1]])
+                if pr[0] == "attrs":
+                    return "PAttrs " + coq_list([coq_bool(x) for x in pr[1]]) + " " + coq_list([f"{v}%N" for v in pr[2]])
+                pid = pr[1] if pr[0] == "raw" else PROP_IDS[pr[0]]
+                return f"PIgnored {pid}%N"
+            if len(fls) == 1:
+                fl = fls[0]
+                want = "Some " + coq_list([f"({coq_str(a)}, {coq_bool(b)}, {c_}%N)" for a, b, c_ in zip(fl["names"], fl["empty"], fl["attrs"])])
+            else:
+                want = "None"
+            fi_cases.append(f"({n}%nat, {coq_list(['(' + coq_prop(pr) + ')' for pr in props])}, {want})")
+            fi_info.append((n, props))
         if len(fls) == 1:
             fl = fls[0]
             fl_cases.append("(%s, %s, %s)" % (
@@ -886,6 +1135,8 @@ def run(ctx):
     corr("should_skip", "(skip_case T NE ARCHIVE)", sc2, "str * str * str * option str * bool", info=si2, shard=150)
     corr("sevenzip_filelist", "filelist_case", fl_cases, "hdr * list (str * Z * bool) * list (option nat)", shard=200)
     corr("sevenzip_fs_events", "case7z_ok", z7_cases, "case7z", info=z7_info, shard=100)
+    corr("sevenzip_filesinfo_props", "filesinfo_case", fi_cases, "nat * list fprop * option (list (str * bool * N))",
+         info=fi_info, shard=200)
     corr("size_rule", "(size_case T NE ARCHIVE)", size_cases, "Z * Z * Z * Z * bool", info=size_info, shard=300)
     corr("lifecycle", "life_case", life_cases, "prog * list action * list (Z * bool)", info=life_info, shard=300)
 
@@ -900,11 +1151,15 @@ META = {
                   "file-system event of a 7z run lies in the private directory (one named no-op excepted); every path read back "
                   "was written by the same run; skip rules incl. router-defined nested archives yield no result for all tables / "
                   "lower / MIME db; temp-dir count is 0 in every terminal state of every consumer history; ZIP/TAR functions make "
-                  "no file-system call (ast skeleton). The code before the repair is refuted by proof and by replay. Model tied to "
+                  "no file-system call (ast skeleton). 7z FilesInfo: EmptyFile/Anti/Dummy/time/unknown property records are inert and "
+                  "entries without a data stream cause no file-system event at all (run equals the run on the header without them). "
+                  "The code before the repair is refuted by proof and by replay. Model tied to "
                   "the code by differential runs on os.path, _safe_join, _should_skip_file, the 7z file list, the traced FS call "
                   "sequence and the life cycle; the property itself is also observed directly with sys.addaudithook and canary files.",
     "level_note": "Trusted: Coq kernel+VM; G/X printers; hand-written model (validated differentially); oracles: 7z header parser, "
                   "decoders, OS failures, host FS, str.lower, mimetypes, per-member extractors; CPython audit events, prompt "
                   "finalisation of dropped generators, tempfile.TemporaryDirectory semantics; kernel/FS races and symlinks planted "
-                  "in /tmp by other processes are not covered.",
+                  "in /tmp by other processes are not covered. Not modelled (stdlib oracles, exercised with hostile inputs only): "
+                  "tarfile pax/GNU-longname/sparse decoding, zipfile Unicode-path and local/central name handling; 7z kAnti "
+                  "semantics (the reader ignores anti items) and external-names records (rejected: modelled as Bad7zFile).",
 }
